@@ -504,6 +504,22 @@ fn main() {
         }
     }
 
+    // steep nonsymmetric problems with fine backtracking steps: the line search of the
+    // exponential / power cones takes dozens of backtracking steps per iteration
+    if !replaying {
+        let nsteep = if thorough { 160 } else { 36 };
+        for k in 0..nsteep {
+            let n = 2 + rng.below(3);
+            let mc = 2 + rng.below(5);
+            let scale = *rng.pick(&[1.0, 10.0, 10.0, 30.0]);
+            let p = steep_nonsym(&mut rng, n, mc, scale, k % 3 == 2);
+            let mut c = Cfg::default();
+            c.backtrack = *rng.pick(&[0.99, 0.99, 0.995, 0.97, 0.9]);
+            c.max_step_fraction = *rng.pick(&[0.99, 0.99, 0.999]);
+            probs.push((p, c));
+        }
+    }
+
     // ------------------------------------------------------------ traced solves
     let mut longruns: Vec<(Prob, Cfg, Outcome)> = vec![];
     for (p, cfg) in probs.iter() {
